@@ -73,6 +73,7 @@ fn iterate(mut it: TypeLengthValues<'_>, n_bytes: usize) -> (usize, bool, usize)
     let cap = n_bytes / 3 + 2;
     let mut items = 0;
     let mut acc = 0;
+    let mut big_budget = 1u32;
     // the other ways of consuming the iterator must return normally too: size_hint before and after every item,
     // and collect / count / last on copies (collect trusts size_hint: a wild lower bound aborts the process)
     acc += it.size_hint().0.min(7);
@@ -90,6 +91,18 @@ fn iterate(mut it: TypeLengthValues<'_>, n_bytes: usize) -> (usize, bool, usize)
                 acc += t.len() + t.is_empty() as usize;
                 let o = t.to_owned();
                 acc += (o == *t) as usize + sink(&o.kind);
+                // the item's own formatter (a value may itself hold TLVs, any number of levels deep)
+                // (the first 8 items of a walk and every 61st after them; of the large ones - a 65535-byte value prints to 300 KB -
+                // the first of each walk)
+                if (t.len() <= 256 && (items <= 8 || items % 61 == 0)) || (t.len() > 256 && big_budget > 0) {
+                    if t.len() > 256 {
+                        big_budget -= 1;
+                    }
+                    acc += format!("{:?}", t).len().min(1);
+                    if t.len() <= 16 {
+                        acc += format!("{:?}", o).len().min(1) + format!("{:#?}", t).len().min(1);
+                    }
+                }
             }
             Err(e) => {
                 acc += e.to_string().len() + sink(e) + e.is_incomplete() as usize;
@@ -243,7 +256,8 @@ fn gen_case(t: &mut Tape) -> Vec<u8> {
         1 => gen::gen_multibyte_cr(t).into_bytes(),
         _ => {
             // TLV-shaped slices
-            match t.weighted(&[2, 1]) {
+            match t.weighted(&[4, 2, 1]) {
+                2 => gen::deep_nested_tlv(t, 70_000),
                 0 => gen::enc_tlv_list(&gen::gen_tlv_list(t, 4000)),
                 _ => {
                     let mut s = gen::enc_tlv_list(&gen::gen_tlv_list(t, 4000));
